@@ -61,6 +61,8 @@ for f, (c8, ctag, bounded, ctx, crx, tier) in FLAV.items():
   # C09
   emit(f"c09_{t}_{f}_try", 9, "Tag", newt, cap, "false", k, life, 1, "O_TRY_SEND | O_TRY_SEND_BATCH | O_TRY_RECV | O_TRY_RECV_BATCH", unw, 0, [("m.next > 2", "more values than capacity were created")])
   emit(f"c09_{t}_{f}_singles", 9, "Tag", newt, cap, "false", k, life, 2, "O_TRY_SEND | O_TRY_RECV | A_LIFE", unw, 0, [("m.n_closed > 0", "a send reported Closed (value handed back)")])
+  if bounded:
+    emit(f"c09_{t}_{f}_cap3_wrap", 9, "Tag", ctag.format(c=3), "Some(3)", "false", 3, "O_NOP", 1, "O_TRY_SEND | O_TRY_RECV", 6, 0, [("m.next > 3", "the ring wrapped"), ("m.q.len >= 2", "at least two values buffered at teardown")])
   emit(f"c09_t_{f}_mut_batch", 9, "Tag", newt, cap, "false", 0, "O_CLOSE_RX | O_DROP_RX | O_NOP", 1, "O_TRY_SEND_BATCH_MUT | O_SEND_BATCH", unw, 0, [("m.n_closed > 0", "a batch send reported Closed")])
 
 hdr = '''//! GENERATED by gen_seq.py - phased sequential programs per flavour (see seq.rs).
